@@ -28,6 +28,12 @@ def check(repo: Repo, rep, tier):
     clone_def(repo, rep)
     fmt_taint_fragment(repo, rep)
     type_qualname(repo, rep)
+    repr_restore(repo, rep)
+    from .C03 import io_encoding
+    from .C16 import codegen_pure
+
+    io_encoding(repo, rep)
+    codegen_pure(repo, rep)
     from .C03 import line_model
 
     line_model(repo, rep)
@@ -296,3 +302,51 @@ def type_qualname(repo: Repo, rep):
             else:
                 rep.violation("R-TYPE-QUALNAME", f, a, f"{f.qualname} writes `{norm(a)}` into generated code: a class nested in another class is then named without its outer class and the snapshot raises NameError on the next run", construct=f"{f.qualname}:{norm(a)}")
     rep.floor("R-TYPE-QUALNAME", "type names written into generated code", n, 4)
+
+
+def repr_restore(repo: Repo, rep):
+    rep.rule(
+        "R-REPR-RESTORE",
+        "the replacement of builtins.repr by the code representation is scoped to one code_repr() call on every exit, exceptions included: it is done "
+        "through `with mock.patch('builtins.repr', ...)` (or try/finally); a plain `builtins.repr = f` is followed, with every call treated as possibly "
+        "raising, by a restoring assignment on every path to the function's normal and exceptional exit.  A user __repr__ that raises would otherwise "
+        "leave repr() replaced for the rest of the session: later `repr(x) == snapshot()` values are created as code representations",
+    )
+    n = 0
+    for f in repo.pkg_funcs():
+        if f.module.rel != "_code_repr.py":
+            continue
+        stores = [x for x in body_nodes(f.node) if isinstance(x, ast.Assign) and any(isinstance(t, ast.Attribute) and t.attr == "repr" and norm(t.value) == "builtins" for t in x.targets)]
+        stores += [x for x in body_nodes(f.node) if isinstance(x, ast.Call) and norm(x.func) == "setattr" and len(x.args) >= 2 and norm(x.args[0]) == "builtins" and isinstance(x.args[1], ast.Constant) and x.args[1].value == "repr"]
+        if not stores:
+            continue
+        cfg = cfg_of(f, all_raise=True)
+        nodes = [nd for nd in cfg.live if nd.kind == "stmt" and any(nd.ast is s or any(y is s for y in ast.walk(nd.ast)) for s in stores)]
+        for nd in nodes:
+            n += 1
+            later = [x for x in nodes if x is not nd]
+            r = reach(cfg, [b for b, l in nd.succ if l != "exc"], blocked_nodes=later)
+            restoring = [x for x in later if "real_repr" in norm(x.ast) or True]
+            if not later:
+                rep.violation("R-REPR-RESTORE", f, nd.ast, f"{f.qualname} assigns builtins.repr and never restores it", construct=f"{f.qualname}:never")
+            elif cfg.exc in r or cfg.ret in r:
+                # is this the restoring store itself (the last one)?  then leaving is fine
+                if "real_repr" in norm(nd.ast):
+                    rep.ok("R-REPR-RESTORE", f, nd.ast, "restoring assignment")
+                else:
+                    rep.violation(
+                        "R-REPR-RESTORE",
+                        f,
+                        nd.ast,
+                        f"after `{short(nd.ast, 50)}` an exit of {f.qualname} (e.g. an exception raised by a user __repr__ while the value is rendered) is reached without restoring builtins.repr: "
+                        "repr() stays replaced for the rest of the session and later repr()-based snapshots are created with the wrong text",
+                        construct=f"{f.qualname}:unrestored",
+                    )
+            else:
+                rep.ok("R-REPR-RESTORE", f, nd.ast, "builtins.repr restored on every exit")
+    # the scoped form
+    scoped = [c for f in repo.pkg_funcs() if f.module.rel == "_code_repr.py" for c in body_nodes(f.node) if isinstance(c, ast.With) and any("patch" in norm(i.context_expr) and "builtins.repr" in norm(i.context_expr) for i in c.items)]
+    if scoped:
+        rep.ok("R-REPR-RESTORE", repo.func("_code_repr.py::code_repr"), scoped[0], "builtins.repr replaced inside `with mock.patch(...)`")
+    elif n == 0:
+        rep.undecided("R-REPR-RESTORE", "no replacement of builtins.repr found in _code_repr.py")
